@@ -1,6 +1,6 @@
 SPECIFICATION Spec
 CONSTANTS
-  Alphabet = {"lt", "gt", "slash", "qmark", "bang", "eq", "dq", "sp", "nl", "x", "nul"}
+  Alphabet = {"stag", "attr", "eq", "dq", "sq", "sp", "nl", "x", "gt", "slash", "nul"}
   MaxLen = 5
   Emit = TRUE
   VoidClosesTag = TRUE
